@@ -309,12 +309,20 @@ def check(pid, tier, runs=None, workers=None, quiet=False):
             continue
         path = write_replay(pid, seed, ex['run'], small, v2, original_ops=ex['trace'])
         ok, msg = verify_replay(path)
+        note = ''
+        if not ok and getattr(prop, 'HASHSEED_IS_VIOLATION', False):
+            ok, msg2 = verify_replay(path, hashseed=0)
+            if ok:
+                note = ('  note: reproduces under PYTHONHASHSEED=0 but not under 977: the result depends on '
+                        'the hash seed (replay with VSIM_HASHSEED=0)')
         if not ok:
             print(f'HARNESS-FAILURE: minimised trace {path} did not reproduce in a fresh '
                   f'interpreter under another hash seed: {msg}')
             return 2
         print(f'VIOLATION property={pid} replay={path}')
         print(f'  oracle={v2.oracle} class={v2.cls} run={ex["run"]} shrink_execs={nexec}')
+        if note:
+            print(note)
         print('  ' + digest.dumps(v2.detail)[:1500])
         reported.append(v2.sig)
         rc = 1
